@@ -325,7 +325,8 @@ def files_task(ctx, task):
             paths = [os.path.join(root, 'a.xtuml'), os.path.join(root, 'sub', 'b.xtuml'), os.path.join(root, 'other', 'deep', 'c.xtuml')]
             for k, p in enumerate(paths):
                 with open(p, 'w') as f:
-                    f.write('\n'.join(s for s, a in zip(stmts, assign) if a == k) + '\n')
+                    # (files end with a line break, with nothing, or with a comment that has no final line break)
+                    f.write('\n'.join(s for s, a in zip(stmts, assign) if a == k) + ['\n', '', ' -- end of file', '\n-- c'][(k + sum(assign)) % 4])
             with open(os.path.join(root, 'sub', 'decoy.sql'), 'w') as f:
                 f.write('this is not sql and must not be read')
             ctx.count('loads')
